@@ -60,6 +60,11 @@ NextApi0 ==
         /\ \/ /\ th[T].lives < MaxLives /\ Begin(T, "inj")
               /\ hist' = Append(hist, [act |-> "New"]) /\ UNCHANGED needProbe
            \/ Acquire(T) /\ needProbe' = TRUE /\ UNCHANGED hist
+           \* between two lifetimes the environment replaces a function's code (only when Regen)
+           \/ /\ th[T].lives \in 1..(MaxLives - 1)
+              /\ \A i \in 1..Len(hist) : hist[i].act = "Regen" => \E j \in (i + 1)..Len(hist) : hist[j].act = "New"
+              /\ \E f \in Funcs : Regenerate(f) /\ hist' = Append(hist, [act |-> "Regen", f |-> f])
+              /\ needProbe' = TRUE
            \/ /\ UserPanic(T)
               /\ hist' = Append(hist, [act |-> "Panic"]) /\ UNCHANGED needProbe
            \/ /\ UserCalls /\ ncalls < MaxUserCalls
